@@ -66,7 +66,7 @@ func (c *Core) routeFor(q *Req, enterStep int64) (want int, ok bool) {
 func (c *Core) modelRouteAt(rec *ReqRec, withLate bool) int {
 	def := -1
 	for i, rt := range c.Cfg.Routes {
-		if rt.Late && !withLate {
+		if rt.Late != 0 && !withLate {
 			continue
 		}
 		switch rt.Kind {
@@ -802,6 +802,14 @@ func (c *Core) finishClient(s *Sim, cl *Client) {
 		if c.runRet && c.stopCalls == 0 {
 			s.Violate("C18", "isolated", "run-returned", "Run returned after "+cl.name()+" "+offence(cl.Behaviour))
 		}
+		// such an attempt ends its own connection: once the handshake has
+		// failed on the server's side the server closes the socket
+		switch cl.Behaviour {
+		case "plaintext", "nocert", "wrongca": // (arbitrary bytes may be the beginning of a record the server still waits for)
+			if cl.srvClose == 0 && c.stopCalls == 0 && !cl.ep.IsReset() && cl.ep.Peer.InFlightIn() == 0 && cfg.ReadTimeout == 0 && cfg.WriteTimeout == 0 && (cl.Flavour == 0 && cl.allSent || cl.hsErr != "") {
+				s.Violate("C18", "isolated", "offender-connection-never-closed client="+cl.Behaviour, fmt.Sprintf("%s %s; at final quiescence the server has not closed its socket (state %s)", cl.name(), offence(cl.Behaviour), c.connState(cl)))
+			}
+		}
 	}
 	if cl.Flavour == 1 && !cl.Offending && !cl.disturbed && cl.dialed && c.stopCalls == 0 && cl.ended != "reset" && cl.hsErr != "" && cfg.ReadTimeout == 0 && cfg.WriteTimeout == 0 {
 		s.Violate("C18", "isolated", "conforming-client-rejected tls-mode="+fmt.Sprint(cfg.TLSMode)+" client="+cl.Behaviour, fmt.Sprintf("%s satisfies the configuration but its handshake failed: %s", cl.name(), cl.hsErr))
@@ -820,7 +828,9 @@ func (c *Core) finishClient(s *Sim, cl *Client) {
 	if cl.Flavour != 0 && (c.stopCalls > 0 || cfg.Lean || cfg.ReadTimeout != 0 || cfg.WriteTimeout != 0) {
 		return // a task client's byte stream is only judged on undisturbed runs
 	}
-	intact := !cl.ep.IsReset() && cl.ended != "reset" && cl.ended != "close"
+	// (a reset that the server itself caused by an abortive close is not a
+	// disturbance of the client's making: what it loses, gldap lost)
+	intact := (!cl.ep.IsReset() || cl.srvAbort) && cl.ended != "reset" && cl.ended != "close"
 	// with a write timeout configured a Write may fail half-way through a
 	// frame and leave its beginning on the wire; a Write that returned nil
 	// has still handed its whole frame to the socket
@@ -867,6 +877,10 @@ func (c *Core) finishClient(s *Sim, cl *Client) {
 			s.Logf("undelivered: %+v", *q.Rec)
 			s.Violate("C03", "once", "dropped op="+op, fmt.Sprintf("m=%d (%s, frame %d on %s) was never handed to a handler", q.Rec.MsgID, op, q.Pos, cl.name()))
 			s.Violate("C01", "delivered", "op="+op, fmt.Sprintf("m=%d (%s, frame %d on %s) never reached a handler", q.Rec.MsgID, op, q.Pos, cl.name()))
+			if len(q.Rec.Controls) > 0 {
+				kinds := " first=" + ctrlClass(q.Rec.Controls[0])
+				s.Violate("C14", "request", "request-with-controls-never-delivered"+kinds, fmt.Sprintf("m=%d (%s, frame %d on %s) carries %d well-formed controls and never reached a handler", q.Rec.MsgID, op, q.Pos, cl.name(), len(q.Rec.Controls)))
+			}
 			if bystander {
 				c.bystanderViolation(s, "request-dropped", fmt.Sprintf("m=%d on bystander %s never served", q.Rec.MsgID, cl.name()))
 			}
